@@ -87,7 +87,8 @@ func c03Framing(c *core.Ctx) {
 					if c03fieldOf(f, l) != bodyField {
 						continue
 					}
-					call, ok := ast.Unparen(as.Rhs[i]).(*ast.CallExpr)
+					rhs, _ := c03resolveLocal(f, as.Rhs[i]) // zr := NewGZipCompressReader(..); resp.Body = zr
+					call, ok := rhs.(*ast.CallExpr)
 					if !ok || !calleeIs(f, call, c03lengthChanging...) {
 						continue
 					}
@@ -199,6 +200,11 @@ func c03Framing(c *core.Ctx) {
 				fresh string
 			}
 			var sites []site
+			// the unit together with the same-package helpers it calls (a header update moved
+			// into a helper is interpreted in place)
+			sc := newC03scope(f, 2)
+			prevScope := c03cur
+			c03cur = sc
 			for _, call := range calls(f.Body, false) {
 				if !(calleeIs(f, call, "(*"+c03hp+".Response).SetPayload") || ifaceMethodCall(f, call, "pkg/protocols", "Response", "SetPayload")) {
 					continue
@@ -210,26 +216,17 @@ func c03Framing(c *core.Ctx) {
 				ord++
 				s := site{call: call, root: c03rootOf(f, sel.X), ord: ord}
 				// created in this function without an inherited length?
-				if v, ok := s.root.(*types.Var); ok {
-					defs := c03defs(top, v)
-					if len(defs) == 1 && defs[0].call != nil {
-						dc := defs[0].call
-						switch {
-						case calleeIs(top, dc, c03hp+".NewResponse") && len(dc.Args) == 1 && top.Info.Types[dc.Args[0]].IsNil():
-							s.fresh = "NewResponse(nil)"
-						case calleeIs(top, dc, "(*"+c03hp+".Protocol).BuildResponse"):
-							s.fresh = "BuildResponse"
-						}
-					}
-				}
+				s.fresh = c03freshResponse(top, s.root)
 				sites = append(sites, s)
 			}
 			if len(sites) == 0 {
+				c03cur = prevScope
 				continue
 			}
 			c.Count("functions_analysed", 1)
 			res := analyze(c, f, flow.Config{
 				NoHavoc: true,
+				Inline:  sc.inline(),
 				OnCall: func(st *flow.State, call *ast.CallExpr, callee types.Object, deferred bool) {
 					if recv, ok := c03clOp(f, call); ok {
 						st.Set("ev:cl:"+c03varID(f, c03rootOf(f, recv)), flow.True)
@@ -241,6 +238,7 @@ func c03Framing(c *core.Ctx) {
 					}
 				},
 			})
+			c03cur = prevScope
 			if res == nil {
 				continue
 			}
@@ -264,6 +262,14 @@ func c03Framing(c *core.Ctx) {
 					n++
 					if !ex.State.Is("ev:cl:"+c03varID(f, s.root), flow.True) && bad == nil {
 						bad = ex.State
+					}
+				}
+				if bad != nil && f == top {
+					// the function only replaces the payload of a response it is handed: the pairing
+					// (or the creation of a fresh response) may be its callers' business
+					if how := c03callersPairPayload(c, top, s.call, s.root); how != "" {
+						c.Discharge("R-C03-6", cons, pos(c, s.call), how)
+						continue
 					}
 				}
 				c.Check(bad == nil, "R-C03-6", cons, pos(c, s.call),
@@ -374,4 +380,96 @@ func c03callersPair(c *core.Ctx, top *flow.Func, param types.Object, all, swappe
 		}
 	})
 	return sites > 0 && okAll
+}
+
+// c03freshResponse: root is a local created in f by NewResponse(nil) / BuildResponse (no
+// Content-Length inherited from a backend); returns the constructor's name or "".
+func c03freshResponse(f *flow.Func, root types.Object) string {
+	v, ok := root.(*types.Var)
+	if !ok {
+		return ""
+	}
+	defs := c03defs(f, v)
+	if len(defs) != 1 || defs[0].call == nil {
+		return ""
+	}
+	dc := defs[0].call
+	switch {
+	case calleeIs(f, dc, c03hp+".NewResponse") && len(dc.Args) == 1 && f.Info.Types[dc.Args[0]].IsNil():
+		return "NewResponse(nil)"
+	case calleeIs(f, dc, "(*"+c03hp+".Protocol).BuildResponse"):
+		return "BuildResponse"
+	}
+	return ""
+}
+
+// c03callersPairPayload: the SetPayload call `site` inside helper `top` acts on a response the
+// helper received (parameter/receiver `root`). Returns a non-empty explanation if every
+// same-package caller either passes a response it created itself (no inherited length) or
+// re-establishes Content-Length on that response on every exit after the call.
+func c03callersPairPayload(c *core.Ctx, top *flow.Func, site *ast.CallExpr, root types.Object) string {
+	fd, ok := top.Node.(*ast.FuncDecl)
+	if !ok || root == nil || len(c03defs1(top, root)) != 0 {
+		return ""
+	}
+	callee := top.Info.Defs[fd.Name]
+	callers, okAll := 0, true
+	for _, file := range top.Pkg.Syntax {
+		for _, d := range file.Decls {
+			cfd, ok := d.(*ast.FuncDecl)
+			if !ok || cfd.Body == nil || cfd == fd {
+				continue
+			}
+			ctop := flow.NewFunc(top.Pkg, cfd)
+			for _, g := range c03units(ctop) {
+				var mine []*ast.CallExpr
+				for _, call := range calls(g.Body, false) {
+					if fo, ok := g.Callee(call).(*types.Func); ok && types.Object(fo.Origin()) == callee {
+						mine = append(mine, call)
+					}
+				}
+				if len(mine) == 0 {
+					continue
+				}
+				callers++
+				sc := newC03scope(g, 2)
+				c03with(sc, func() {
+					bound := c03canon(g, root) // the helper's parameter → the caller's variable
+					if bound == nil || bound == root {
+						okAll = false
+						return
+					}
+					if c03freshResponse(ctop, bound) != "" {
+						return
+					}
+					id := c03varID(g, bound)
+					res := analyze(c, g, flow.Config{
+						NoHavoc: true,
+						Inline:  sc.inline(),
+						OnCall: func(st *flow.State, call *ast.CallExpr, _ types.Object, _ bool) {
+							if recv, ok := c03clOp(g, call); ok && c03varID(g, c03rootOf(g, recv)) == id {
+								st.Set("ev:cl", flow.True)
+							}
+							if call == site {
+								st.Set("ev:sp", flow.True)
+							}
+						},
+					})
+					if res == nil {
+						okAll = false
+						return
+					}
+					for _, ex := range res.Exits {
+						if ex.Kind == flow.ExitReturn && ex.State.Is("ev:sp", flow.True) && !ex.State.Is("ev:cl", flow.True) {
+							okAll = false
+						}
+					}
+				})
+			}
+		}
+	}
+	if callers == 0 || !okAll {
+		return ""
+	}
+	return sprintf("the helper replaces the payload of the response it is handed; each of its %d caller(s) passes a response it created itself or re-establishes Content-Length on it on every exit after the call", callers)
 }
